@@ -1,10 +1,871 @@
 package main
 
-import "golang.org/x/tools/go/ssa"
+// Assembly front end (amd64, general-purpose registers only).
+//
+// For the `default` build configuration the .s files of the module's packages are assembled with the real
+// assembler (`go tool asm`, the same include path and defines the go command uses) and the resulting object is
+// disassembled with `go tool objdump`: what is executed symbolically is therefore the macro-expanded instruction
+// stream the assembler produced from /repo's current sources, not a re-implementation of its macro language.
+// Supported: MOVQ/MOVL, ADDQ/ADCQ/SUBQ/SBBQ, MULQ, IMULQ (2/3 operands), ANDQ/ORQ/XORQ/NOTQ/NEGQ, SHLQ/SHRQ/SARQ
+// by immediates, SHLDQ/SHRDQ, ROLQ/RORQ, INCQ/DECQ, LEAQ, CMPQ/TESTQ, PUSHQ/POPQ, conditional jumps on
+// CONCRETE flags, RET, and the stack-growth prologue (assumed not taken). Anything else (SSE/AVX, symbolic
+// jumps, byte-sized memory operands) is rejected with an engine error: such functions stay outside the claims.
 
-type AsmFunc struct{}
+import (
+	"fmt"
+	"go/types"
+	"math/big"
+	"math/rand"
+	"sync"
+	"sync/atomic"
+	"time"
+	"os"
+	"os/exec"
+	"path/filepath"
+	"regexp"
+	"strconv"
+	"strings"
 
-func (ld *Loaded) asmFuncsOrNil() map[string]*AsmFunc { return nil }
+	"golang.org/x/tools/go/ssa"
+)
+
+type asmInst struct {
+	pc   int64
+	op   string
+	args []string
+	src  string
+}
+
+type AsmFunc struct {
+	name  string
+	file  string
+	insts []asmInst
+	byPC  map[int64]int
+}
+
+var objLineRe = regexp.MustCompile(`^\s+(\S+:\d+)\s+0x([0-9a-f]+)\s+([0-9a-f]+)\s+(.*)$`)
+
+// loadAsm assembles and disassembles the amd64 .s files of the module (default configuration only).
+func (ld *Loaded) loadAsm() error {
+	ld.asm = map[string]*AsmFunc{}
+	if ld.config != "default" {
+		return nil
+	}
+	goroot := strings.TrimSpace(runCmd(repoDir, "go", "env", "GOROOT"))
+	tmp, err := os.MkdirTemp("", "voiasm")
+	if err != nil {
+		return err
+	}
+	defer os.RemoveAll(tmp)
+	for path := range ld.pkgs {
+		if !strings.HasPrefix(path, modPath) {
+			continue
+		}
+		dir := filepath.Join(repoDir, strings.TrimPrefix(strings.TrimPrefix(path, modPath), "/"))
+		files, _ := filepath.Glob(filepath.Join(dir, "*_amd64.s"))
+		for _, f := range files {
+			src, _ := os.ReadFile(f)
+			if !strings.Contains(string(src), "!purego") && strings.Contains(string(src), "//go:build") && !strings.Contains(string(src), "amd64") {
+				continue
+			}
+			obj := filepath.Join(tmp, filepath.Base(f)+".o")
+			pkgName := filepath.Base(dir)
+			cmd := exec.Command("go", "tool", "asm", "-p", pkgName, "-I", filepath.Join(goroot, "pkg", "include"), "-D", "GOOS_linux", "-D", "GOARCH_amd64", "-o", obj, f)
+			cmd.Dir = dir
+			cmd.Env = append(os.Environ(), "GOFLAGS=-mod=mod", "GOPROXY=off", "GOSUMDB=off", "GOTOOLCHAIN=local")
+			if out, err := cmd.CombinedOutput(); err != nil {
+				// (files that need go_asm.h or vector extensions the assembler accepts but we do not model are
+				// simply absent from the table; calling such a function is an engine error)
+				fmt.Fprintf(os.Stderr, "[asm] %s: not assembled: %v %s\n", f, err, strings.TrimSpace(string(out)))
+				continue
+			}
+			dis := runCmd(dir, "go", "tool", "objdump", obj)
+			var cur *AsmFunc
+			for _, line := range strings.Split(dis, "\n") {
+				if strings.HasPrefix(line, "TEXT ") {
+					nm := strings.Fields(line)[1]
+					nm = strings.TrimSuffix(nm, "(SB)")
+					if i := strings.LastIndex(nm, "."); i >= 0 {
+						nm = nm[i+1:]
+					}
+					cur = &AsmFunc{name: nm, file: f, byPC: map[int64]int{}}
+					ld.asm[path+"."+nm] = cur
+					continue
+				}
+				m := objLineRe.FindStringSubmatch(line)
+				if m == nil || cur == nil {
+					continue
+				}
+				pc, _ := strconv.ParseInt(m[2], 16, 64)
+				text := m[4]
+				if i := strings.Index(text, "\t"); i >= 0 {
+					text = text[:i]
+				}
+				text = strings.TrimSpace(text)
+				op, rest, _ := strings.Cut(text, " ")
+				var args []string
+				if strings.TrimSpace(rest) != "" {
+					for _, a := range strings.Split(rest, ",") {
+						args = append(args, strings.TrimSpace(a))
+					}
+				}
+				cur.byPC[pc] = len(cur.insts)
+				cur.insts = append(cur.insts, asmInst{pc: pc, op: op, args: args, src: m[1]})
+			}
+		}
+	}
+	return nil
+}
+
+func runCmd(dir string, name string, args ...string) string {
+	cmd := exec.Command(name, args...)
+	cmd.Dir = dir
+	cmd.Env = append(os.Environ(), "GOFLAGS=-mod=mod", "GOPROXY=off", "GOSUMDB=off", "GOTOOLCHAIN=local")
+	out, _ := cmd.Output()
+	return string(out)
+}
+
+func (ld *Loaded) asmFuncsOrNil() map[string]*AsmFunc { return ld.asm }
+
+type asmState struct {
+	c      *Ctx
+	st     *State
+	regs   map[string]Value
+	stack  map[int64]Value
+	sp     int64
+	cf     *Term // carry flag as a 1-bit vector (nil: undefined)
+	zf     *Term // zero flag as a Bool (nil: undefined)
+	fn     *ssa.Function
+	in     *asmInst
+}
+
+var gcSizes = types.SizesFor("gc", "amd64")
+
+func (a *asmState) fail(format string, args ...interface{}) {
+	fail("asm %s %s %s (%s): %s", a.fn.Name(), a.in.op, strings.Join(a.in.args, ", "), a.in.src, fmt.Sprintf(format, args...))
+}
+
+var memRe = regexp.MustCompile(`^(-?(?:0x)?[0-9a-f]*)\(([A-Z0-9]+)\)$`)
+
+func parseImm(s string) (int64, bool) {
+	s = strings.TrimPrefix(s, "$")
+	neg := false
+	if strings.HasPrefix(s, "-") {
+		neg = true
+		s = s[1:]
+	}
+	var v uint64
+	var err error
+	if strings.HasPrefix(s, "0x") {
+		v, err = strconv.ParseUint(s[2:], 16, 64)
+	} else {
+		v, err = strconv.ParseUint(s, 10, 64)
+	}
+	if err != nil {
+		return 0, false
+	}
+	if neg {
+		return -int64(v), true
+	}
+	return int64(v), true
+}
+
+// leafAt resolves a byte offset from a pointer to the 8-byte leaf it addresses.
+func (a *asmState) leafAt(p Pointer, off int64) Pointer {
+	t := p.Obj.typ
+	for _, e := range p.Path {
+		switch u := t.Underlying().(type) {
+		case *types.Struct:
+			t = u.Field(e.Idx).Type()
+		case *types.Array:
+			t = u.Elem()
+		default:
+			a.fail("pointer path through %s", t)
+		}
+	}
+	cur := p
+	for {
+		switch u := t.Underlying().(type) {
+		case *types.Struct:
+			var fs []*types.Var
+			for i := 0; i < u.NumFields(); i++ {
+				fs = append(fs, u.Field(i))
+			}
+			offs := gcSizes.Offsetsof(fs)
+			found := false
+			for i := u.NumFields() - 1; i >= 0; i-- {
+				sz := gcSizes.Sizeof(u.Field(i).Type())
+				if sz > 0 && off >= offs[i] && off < offs[i]+sz {
+					cur = cur.child(PathElem{Idx: i})
+					off -= offs[i]
+					t = u.Field(i).Type()
+					found = true
+					break
+				}
+			}
+			if !found {
+				a.fail("offset %d outside %s", off, t)
+			}
+		case *types.Array:
+			es := gcSizes.Sizeof(u.Elem())
+			idx := off / es
+			if idx < 0 || idx >= u.Len() {
+				a.fail("offset %d outside %s", off, t)
+			}
+			cur = cur.child(PathElem{Idx: int(idx)})
+			off -= idx * es
+			t = u.Elem()
+		case *types.Basic:
+			if gcSizes.Sizeof(t) != 8 || off != 0 {
+				a.fail("memory operand is not an aligned 8-byte word (type %s, offset %d)", t, off)
+			}
+			return cur
+		default:
+			a.fail("memory operand inside %s", t)
+		}
+	}
+}
+
+func (a *asmState) reg(name string) Value {
+	if v, ok := a.regs[name]; ok {
+		return v
+	}
+	// callee may read a register it has not written only to save it (BP): an arbitrary value
+	v := Var(a.c.freshName("reg_"+name), BV(64))
+	a.regs[name] = v
+	return v
+}
+
+// read returns the 64-bit value of an operand.
+func (a *asmState) read(op string) Value {
+	if strings.HasPrefix(op, "$") {
+		v, ok := parseImm(op)
+		if !ok {
+			a.fail("immediate %q", op)
+		}
+		return BVI(v, 64)
+	}
+	if m := memRe.FindStringSubmatch(op); m != nil {
+		off := int64(0)
+		if m[1] != "" {
+			var ok bool
+			if off, ok = parseImm(m[1]); !ok {
+				a.fail("offset %q", m[1])
+			}
+		}
+		if m[2] == "SP" {
+			v, ok := a.stack[a.sp+off]
+			if !ok {
+				a.fail("read of an unwritten stack slot %d", a.sp+off)
+			}
+			return v
+		}
+		base, ok := a.reg(m[2]).(Pointer)
+		if !ok {
+			a.fail("memory operand through a register that does not hold a pointer")
+		}
+		return a.st.load(a.leafAt(base, off))
+	}
+	if strings.ContainsAny(op, "(:") {
+		a.fail("unsupported operand %q", op)
+	}
+	return a.reg(op)
+}
+
+func (a *asmState) readT(op string) *Term {
+	v := a.read(op)
+	t, ok := v.(*Term)
+	if !ok {
+		a.fail("arithmetic on a pointer value")
+	}
+	return t
+}
+
+func (a *asmState) write(op string, v Value) {
+	if m := memRe.FindStringSubmatch(op); m != nil {
+		off := int64(0)
+		if m[1] != "" {
+			off, _ = parseImm(m[1])
+		}
+		if m[2] == "SP" {
+			a.stack[a.sp+off] = v
+			return
+		}
+		base, ok := a.reg(m[2]).(Pointer)
+		if !ok {
+			a.fail("memory operand through a register that does not hold a pointer")
+		}
+		a.st.store(a.leafAt(base, off), v)
+		return
+	}
+	if strings.ContainsAny(op, "($:") {
+		a.fail("unsupported destination %q", op)
+	}
+	a.regs[op] = v
+}
+
 func (c *Ctx) execAsm(af *AsmFunc, fn *ssa.Function, args []Value, st *State, site ssa.Instruction) {
-	fail("asm not supported yet")
+	a := &asmState{c: c, st: st, regs: map[string]Value{}, stack: map[int64]Value{}, fn: fn}
+	c.encoded[fn.String()+" [asm]"] = len(af.insts)
+	// ABI0 argument area: return address at 0(SP), arguments from 8(SP)
+	off := int64(8)
+	for i, p := range fn.Params {
+		sz := gcSizes.Sizeof(p.Type())
+		al := gcSizes.Alignof(p.Type())
+		off = (off + al - 1) / al * al
+		if sz != 8 {
+			fail("asm %s: parameter %s of size %d (only 8-byte parameters are modelled)", fn.Name(), p.Name(), sz)
+		}
+		a.stack[off] = args[i]
+		off += sz
+	}
+	if fn.Signature.Results().Len() != 0 {
+		fail("asm %s: results are not modelled", fn.Name())
+	}
+	a.stack[0] = BVI(0, 64)
+	// segment-wise simulation (asmsim=): cut before and after every source line that expands to a whole round
+	var sim *asmSim
+	lineCount := map[string]int{}
+	if spec := c.asmSimFor(fn); spec != nil {
+		p, ok := args[0].(Pointer)
+		if !ok {
+			fail("asmsim: first argument of %s is not a pointer", fn.Name())
+		}
+		arr, ok := st.load(p).(*ArrayV)
+		if !ok {
+			fail("asmsim: first argument of %s does not point to an array", fn.Name())
+		}
+		sim = &asmSim{refFn: spec, stateArg: p, n: len(arr.E)}
+		a.in = &af.insts[0]
+		sim.entry = a.simLanes(sim)
+		sim.cur = sim.entry
+		for _, in := range af.insts {
+			lineCount[in.src]++
+		}
+	}
+	isRound := func(src string) bool { return lineCount[src] >= 50 }
+	steps := 0
+	for i := 0; i < len(af.insts); {
+		in := &af.insts[i]
+		a.in = in
+		if sim != nil && i > 0 && af.insts[i-1].src != in.src && (isRound(in.src) || isRound(af.insts[i-1].src)) {
+			if isRound(af.insts[i-1].src) {
+				sim.pending++
+			}
+			a.simCut(sim, false)
+		}
+		if steps++; steps > 2000000 {
+			a.fail("instruction budget exceeded")
+		}
+		next := i + 1
+		ar := in.args
+		bin := func(f func(x, y *Term) *Term) {
+			x, y := a.readT(ar[0]), a.readT(ar[1])
+			r := f(y, x)
+			a.write(ar[1], r)
+			a.zf = Eq(r, BVI(0, 64))
+		}
+		switch in.op {
+		case "MOVQ":
+			if strings.Contains(ar[0], "FS:") {
+				a.write(ar[1], Var(c.freshName("tls"), BV(64)))
+				break
+			}
+			if ar[0] == "SP" {
+				a.write(ar[1], BVI(a.sp, 64)) // frame pointer bookkeeping only
+				break
+			}
+			a.write(ar[1], a.read(ar[0]))
+		case "MOVL":
+			v, ok := parseImm(ar[0])
+			if !ok || !strings.HasPrefix(ar[0], "$") {
+				a.fail("only MOVL $imm, reg is modelled")
+			}
+			a.write(ar[1], BVI(int64(uint32(v)), 64))
+		case "LEAQ":
+			m := memRe.FindStringSubmatch(ar[0])
+			if m == nil || m[2] != "SP" {
+				a.fail("only LEAQ off(SP), reg is modelled")
+			}
+			o, _ := parseImm(m[1])
+			a.write(ar[1], BVI(a.sp+o, 64))
+		case "CMPQ":
+			// stack-growth check of the prologue (the only comparison in the supported files before a JBE)
+			a.cf, a.zf = nil, nil
+		case "JBE", "JLS":
+			if a.cf != nil || a.zf != nil {
+				a.fail("conditional jump on modelled flags")
+			}
+			// prologue: enough stack is assumed (the morestack path re-enters the function)
+		case "PUSHQ":
+			a.sp -= 8
+			a.stack[a.sp] = a.read(ar[0])
+		case "POPQ":
+			a.write(ar[0], a.stack[a.sp])
+			a.sp += 8
+		case "ADDQ", "SUBQ":
+			if ar[1] == "SP" {
+				v, ok := parseImm(ar[0])
+				if !ok {
+					a.fail("stack adjustment by a non-immediate")
+				}
+				if in.op == "ADDQ" {
+					a.sp += v
+				} else {
+					a.sp -= v
+				}
+				break
+			}
+			x, y := a.readT(ar[0]), a.readT(ar[1])
+			var s *Term
+			if in.op == "ADDQ" {
+				s = BvAdd(Zext(y, 65), Zext(x, 65))
+			} else {
+				s = BvSub(Zext(y, 65), Zext(x, 65))
+			}
+			r := Extract(s, 63, 0)
+			a.write(ar[1], r)
+			a.cf = Extract(s, 64, 64)
+			a.zf = Eq(r, BVI(0, 64))
+		case "ADCQ", "SBBQ":
+			if a.cf == nil {
+				a.fail("carry flag undefined")
+			}
+			x, y := a.readT(ar[0]), a.readT(ar[1])
+			cin := Zext(a.cf, 65)
+			var s *Term
+			if in.op == "ADCQ" {
+				s = BvAdd(BvAdd(Zext(y, 65), Zext(x, 65)), cin)
+			} else {
+				s = BvSub(BvSub(Zext(y, 65), Zext(x, 65)), cin)
+			}
+			r := Extract(s, 63, 0)
+			a.write(ar[1], r)
+			a.cf = Extract(s, 64, 64)
+			a.zf = Eq(r, BVI(0, 64))
+		case "MULQ":
+			p := BvMul(Zext(a.readT("AX"), 128), Zext(a.readT(ar[0]), 128))
+			a.regs["DX"] = Extract(p, 127, 64)
+			a.regs["AX"] = Extract(p, 63, 0)
+			a.cf, a.zf = nil, nil
+		case "IMULQ", "IMUL3Q":
+			switch len(ar) {
+			case 3:
+				a.write(ar[2], BvMul(a.readT(ar[1]), a.readT(ar[0])))
+			case 2:
+				a.write(ar[1], BvMul(a.readT(ar[1]), a.readT(ar[0])))
+			default:
+				a.fail("one-operand IMULQ is not modelled")
+			}
+			a.cf, a.zf = nil, nil
+		case "ANDQ":
+			bin(BvAnd)
+			a.cf = BVI(0, 1)
+		case "ORQ":
+			bin(BvOr)
+			a.cf = BVI(0, 1)
+		case "XORQ":
+			bin(BvXor)
+			a.cf = BVI(0, 1)
+		case "NOTQ":
+			a.write(ar[0], BvNot(a.readT(ar[0])))
+		case "NEGQ":
+			x := a.readT(ar[0])
+			r := BvNeg(x)
+			a.write(ar[0], r)
+			a.cf = Ite(Eq(x, BVI(0, 64)), BVI(0, 1), BVI(1, 1))
+			a.zf = Eq(r, BVI(0, 64))
+		case "SHLQ", "SHRQ", "SARQ", "ROLQ", "RORQ":
+			k, ok := parseImm(ar[0])
+			if !ok || !strings.HasPrefix(ar[0], "$") || k < 0 || k > 63 {
+				a.fail("shift/rotate count must be an immediate in 0..63")
+			}
+			x := a.readT(ar[1])
+			var r *Term
+			switch in.op {
+			case "SHLQ":
+				r = BvShl(x, BVI(k, 64))
+			case "SHRQ":
+				r = BvLshr(x, BVI(k, 64))
+			case "SARQ":
+				r = BvAshr(x, BVI(k, 64))
+			case "ROLQ":
+				r = x
+				if k != 0 {
+					r = BvOr(BvShl(x, BVI(k, 64)), BvLshr(x, BVI(64-k, 64)))
+				}
+			case "RORQ":
+				r = x
+				if k != 0 {
+					r = BvOr(BvLshr(x, BVI(k, 64)), BvShl(x, BVI(64-k, 64)))
+				}
+			}
+			a.write(ar[1], r)
+			a.cf, a.zf = nil, Eq(r, BVI(0, 64))
+		case "SHLDQ", "SHRDQ":
+			k, ok := parseImm(ar[0])
+			if !ok || k <= 0 || k > 63 {
+				a.fail("double shift count must be an immediate in 1..63")
+			}
+			src, dst := a.readT(ar[1]), a.readT(ar[2])
+			var r *Term
+			if in.op == "SHLDQ" {
+				r = BvOr(BvShl(dst, BVI(k, 64)), BvLshr(src, BVI(64-k, 64)))
+			} else {
+				r = BvOr(BvLshr(dst, BVI(k, 64)), BvShl(src, BVI(64-k, 64)))
+			}
+			a.write(ar[2], r)
+			a.cf, a.zf = nil, nil
+		case "INCQ", "DECQ":
+			x := a.readT(ar[0])
+			d := int64(1)
+			if in.op == "DECQ" {
+				d = -1
+			}
+			r := BvAdd(x, BVI(d, 64))
+			a.write(ar[0], r)
+			a.zf = Eq(r, BVI(0, 64)) // CF unaffected
+		case "TESTQ":
+			r := BvAnd(a.readT(ar[0]), a.readT(ar[1]))
+			a.zf, a.cf = Eq(r, BVI(0, 64)), BVI(0, 1)
+		case "JNE", "JEQ", "JNZ", "JZ":
+			if a.zf == nil || !a.zf.IsConst() {
+				a.fail("conditional jump on a symbolic or undefined zero flag (loop counters must be concrete)")
+			}
+			taken := a.zf.IsTrue()
+			if in.op == "JNE" || in.op == "JNZ" {
+				taken = !taken
+			}
+			if taken {
+				t, ok := parseImm(ar[0])
+				j, ok2 := af.byPC[t]
+				if !ok || !ok2 {
+					a.fail("jump target %q", ar[0])
+				}
+				next = j
+			}
+		case "JMP":
+			t, ok := parseImm(ar[0])
+			j, ok2 := af.byPC[t]
+			if !ok || !ok2 {
+				a.fail("jump target %q", ar[0])
+			}
+			next = j
+		case "RET":
+			if a.sp != 0 {
+				a.fail("stack pointer not restored at RET (offset %d)", a.sp)
+			}
+			if sim != nil {
+				a.simCut(sim, true)
+				c.encoded[fn.String()+fmt.Sprintf(" [asm: %d cuts, %d one-round equivalence queries proved]", sim.cuts, sim.queries)] = len(af.insts)
+			}
+			return
+		case "NOPL", "NOPW", "NOP", "XCHGL", "INT":
+		default:
+			a.fail("unsupported instruction")
+		}
+		i = next
+	}
+	fail("asm %s: fell off the end of the function", fn.Name())
+}
+
+// ---------- segment-wise simulation of a straight-line assembly routine against a reference step ----------
+//
+// directive attribute  asmsim=<asm function>:<reference step>  (reference step: func(state *[N]uint64, round int)
+// in the harness). The instruction stream is cut at the source lines that expand to a whole round (>= 50
+// instructions: one macro invocation per round). At every cut the engine
+//   1. advances the abstract reference state R by the rounds executed since the previous cut,
+//   2. looks, for every live location of the assembly (state words in memory, stack slots, registers), for a
+//      relation  location = f(R')  with f among: a lane, its complement, the xor of a subset of one column of
+//      lanes, its complement (candidates filtered by evaluation on random states, then PROVED by the solver for
+//      all states - a one-round query), and
+//   3. replaces R' by fresh variables and every matched location by f(fresh); unmatched locations become
+//      unconstrained (sound: if such a value mattered, a later match or the final one fails).
+// At RET every state word must match its lane exactly; the words are then set to the reference applied to the
+// ORIGINAL input (deep terms, identical to what the harness computes for its own comparison). The composition of
+// the proved one-round relations is the equivalence for all inputs; nothing here is sampled as a verdict.
+
+type asmSim struct {
+	refFn    *ssa.Function
+	stateArg Pointer
+	n        int
+	entry    []*Term // original lanes
+	cur      []*Term // abstract lanes the current location terms are expressed over
+	rounds   int     // reference rounds accounted for up to the last cut
+	pending  int     // round segments executed since the last cut
+	queries  int
+	cuts     int
+}
+
+func (a *asmState) simLanes(sim *asmSim) []*Term {
+	arr := a.st.load(sim.stateArg).(*ArrayV)
+	out := make([]*Term, sim.n)
+	for i := range out {
+		out[i] = termOf(arr.E[i])
+	}
+	return out
+}
+
+// refApply runs the harness reference step on lanes, for rounds [from, from+k).
+func (a *asmState) refApply(sim *asmSim, lanes []*Term, from, k int) []*Term {
+	if k == 0 {
+		return lanes
+	}
+	arr := &ArrayV{E: make([]Value, len(lanes))}
+	for i, t := range lanes {
+		arr.E[i] = t
+	}
+	st2 := a.st.fork()
+	ptr := st2.newObject(a.c, "asmsim.ref", sim.stateArg.Obj.typ, arr)
+	for r := from; r < from+k; r++ {
+		outs := a.c.callFunction(sim.refFn, []Value{ptr, BVI(int64(r), 64)}, nil, st2, nil)
+		if len(outs) != 1 {
+			a.fail("reference step forked")
+		}
+		st2 = outs[0].st
+	}
+	res := st2.load(ptr).(*ArrayV)
+	out := make([]*Term, len(lanes))
+	for i := range out {
+		out[i] = termOf(res.E[i])
+	}
+	return out
+}
+
+type simCand struct {
+	lanes []int
+	neg   bool
+}
+
+func (sc simCand) build(R []*Term) *Term {
+	t := R[sc.lanes[0]]
+	for _, i := range sc.lanes[1:] {
+		t = BvXor(t, R[i])
+	}
+	if sc.neg {
+		t = BvNot(t)
+	}
+	return t
+}
+
+func simCandidates(n int) []simCand {
+	var cs []simCand
+	for i := 0; i < n; i++ {
+		cs = append(cs, simCand{[]int{i}, false}, simCand{[]int{i}, true})
+	}
+	if n == 25 {
+		for x := 0; x < 5; x++ {
+			for mask := 1; mask < 32; mask++ {
+				if mask&(mask-1) == 0 {
+					continue // single lanes are above
+				}
+				var ls []int
+				for y := 0; y < 5; y++ {
+					if mask>>uint(y)&1 == 1 {
+						ls = append(ls, x+5*y)
+					}
+				}
+				cs = append(cs, simCand{ls, false}, simCand{ls, true})
+			}
+		}
+	}
+	return cs
+}
+
+// simCut performs one cut (final = at RET).
+func (a *asmState) simCut(sim *asmSim, final bool) {
+	sim.cuts++
+	R := a.refApply(sim, sim.cur, sim.rounds, sim.pending)
+	sim.rounds += sim.pending
+	sim.pending = 0
+	// random evaluation points over the variables of the current abstraction
+	var roots []*Term
+	roots = append(roots, R...)
+	type loc struct {
+		kind string // mem | stack | reg
+		idx  int64
+		reg  string
+		t    *Term
+	}
+	var locs []loc
+	for i, t := range a.simLanes(sim) {
+		locs = append(locs, loc{kind: "mem", idx: int64(i), t: t})
+	}
+	if !final {
+		for off, v := range a.stack {
+			if t, ok := v.(*Term); ok && off < 0 && !t.IsConst() {
+				locs = append(locs, loc{kind: "stack", idx: off, t: t})
+			}
+		}
+		for r, v := range a.regs {
+			if t, ok := v.(*Term); ok && !t.IsConst() {
+				locs = append(locs, loc{kind: "reg", reg: r, t: t})
+			}
+		}
+	}
+	for _, l := range locs {
+		roots = append(roots, l.t)
+	}
+	vars := termVars(roots...)
+	const nPts = 3
+	evs := make([]*evaluator, nPts)
+	rng := newRand(int64(sim.cuts)*7919 + runSeed)
+	for k := range evs {
+		env := map[*Term]*big.Int{}
+		for _, v := range vars {
+			if v.sort.K == KBool {
+				env[v] = big.NewInt(int64(rng.Intn(2)))
+			} else {
+				env[v] = new(big.Int).Rand(rng, pow2(v.sort.W))
+			}
+		}
+		evs[k] = newEvaluator(env)
+	}
+	cands := simCandidates(sim.n)
+	rv := make([][]*big.Int, nPts)
+	for k := range evs {
+		rv[k] = make([]*big.Int, len(R))
+		for i, t := range R {
+			v, err := evs[k].eval(t)
+			if err != nil {
+				a.fail("asm simulation: reference state not evaluable: %v", err)
+			}
+			rv[k][i] = v
+		}
+	}
+	m64 := maskW(64)
+	candVal := func(c simCand, k int) *big.Int {
+		v := new(big.Int).Set(rv[k][c.lanes[0]])
+		for _, i := range c.lanes[1:] {
+			v.Xor(v, rv[k][i])
+		}
+		if c.neg {
+			v.Xor(v, m64)
+		}
+		return v
+	}
+	matched := make([]*simCand, len(locs))
+	var wg sync.WaitGroup
+	var qn int64
+	sem := make(chan struct{}, 14)
+	for li, l := range locs {
+		if l.t.sort.K != KBV || l.t.sort.W != 64 {
+			continue
+		}
+		vals := make([]*big.Int, nPts)
+		ok := true
+		for k := range evs {
+			v, err := evs[k].eval(l.t)
+			if err != nil {
+				ok = false
+				break
+			}
+			vals[k] = v
+		}
+		if !ok {
+			continue
+		}
+		order := cands
+		if l.kind == "mem" && final {
+			order = []simCand{{[]int{int(l.idx)}, false}}
+		}
+		// candidates that agree on the random states (evaluation is a filter only)
+		var pass []simCand
+		for ci := range order {
+			c := order[ci]
+			same := true
+			for k := range evs {
+				if candVal(c, k).Cmp(vals[k]) != 0 {
+					same = false
+					break
+				}
+			}
+			if same {
+				pass = append(pass, c)
+			}
+		}
+		if len(pass) == 0 {
+			continue
+		}
+		li, l := li, l
+		wg.Add(1)
+		sem <- struct{}{}
+		go func() {
+			defer wg.Done()
+			defer func() { <-sem }()
+			for _, c := range pass {
+				ct := c.build(R)
+				if ct != l.t {
+					atomic.AddInt64(&qn, 1)
+					atomicAddQueries(1)
+					res := Solve(SMTScript([]*Term{Not(Eq(ct, l.t))}), nil, 60*time.Second, []string{"z3new", "z3", "cvc5"})
+					if res.Status != "unsat" {
+						continue
+					}
+				}
+				cc := c
+				matched[li] = &cc
+				return
+			}
+		}()
+	}
+	wg.Wait()
+	sim.queries += int(qn)
+	if final {
+		for li, l := range locs {
+			if matched[li] == nil {
+				a.fail("asm simulation: final state word %d is not the reference lane (no proof)", l.idx)
+			}
+		}
+		deep := a.refApply(sim, sim.entry, 0, sim.rounds)
+		arr := &ArrayV{E: make([]Value, sim.n)}
+		for i := range deep {
+			arr.E[i] = deep[i]
+		}
+		a.st.store(sim.stateArg, arr)
+		return
+	}
+	fresh := make([]*Term, sim.n)
+	for i := range fresh {
+		fresh[i] = Var(a.c.freshName(fmt.Sprintf("sim%d_lane%d", sim.cuts, i)), BV(64))
+	}
+	arr := &ArrayV{E: append([]Value(nil), a.st.load(sim.stateArg).(*ArrayV).E...)}
+	for li, l := range locs {
+		var nv *Term
+		if matched[li] != nil {
+			nv = matched[li].build(fresh)
+		} else {
+			nv = Var(a.c.freshName(fmt.Sprintf("sim%d_free", sim.cuts)), l.t.sort)
+		}
+		switch l.kind {
+		case "mem":
+			arr.E[l.idx] = nv
+		case "stack":
+			a.stack[l.idx] = nv
+		case "reg":
+			a.regs[l.reg] = nv
+		}
+	}
+	a.st.store(sim.stateArg, arr)
+	sim.cur = fresh
+}
+
+func newRand(seed int64) *rand.Rand { return rand.New(rand.NewSource(seed)) }
+
+func atomicAddQueries(n int64) { atomic.AddInt64(&statQueries, n) }
+
+// asmSimFor: the reference step registered for fn by the directive attribute asmsim=<function>:<step>.
+func (c *Ctx) asmSimFor(fn *ssa.Function) *ssa.Function {
+	if c.asmSimSpec == "" {
+		return nil
+	}
+	i := strings.LastIndex(c.asmSimSpec, ":")
+	if i < 0 || shortName(fn.String()) != c.asmSimSpec[:i] {
+		return nil
+	}
+	f := fn.Pkg.Func(c.asmSimSpec[i+1:])
+	if f == nil {
+		fail("asmsim: reference step %s not found in %s", c.asmSimSpec[i+1:], fn.Pkg.Pkg.Path())
+	}
+	return f
 }
